@@ -38,7 +38,12 @@ META = dict(
                "command in flight). The interpreter's scheduling and UOD commands from the user's command buttons are "
                "covered by the engine-level oracle, not by the theorems: a user command between the two phases of "
                "Stop/Restart is initialised and never finalized (known findings *:started-while-stopping; repair "
-               "proposed in fixes/C10-dispose-instances-on-stop.diff).",
+               "proposed in fixes/C10-dispose-instances-on-stop.diff). The clause 'no finalize callback on an instance "
+               "whose initialize callback never ran' (unpaired finalize) is decided by the oracles over the "
+               "implementation's callback log (op streams and engine level, key finalized-without-initialize), not by "
+               "a theorem of its own: the model's expected trace admits a final-only instance (`tomb`: an "
+               "uninitialised instance left in the map by a rejected request), which OPM.C10.no_stale shows "
+               "unreachable once rejected requests dispose their instance.",
     technique="Lean 4 proof (inductive invariant over ops; loop invariants over the executing snapshot) + differential "
               "correspondence + engine-level property oracle",
 )
